@@ -689,6 +689,11 @@ class BaseProperty(base.BaseObject):
         if not self._validate_values(new_value):
             raise ValueError("odml.Property.merge: passed value(s) cannot "
                              "be converted to data type '%s'!" % self._dtype)
+
+        # Adding the values must not fail later on either: try it out on a copy.
+        to_add = [v for v in source.values if v not in self._values]
+        self.clone().extend(to_add, strict=strict)
+
         if not strict:
             return
 
